@@ -2,7 +2,7 @@
   C18 — internal timers: the model's `timerUpdate` (the UpdateTimer arm of `trigger_update`)
   against the contract function `C18.timerSpec` written from the property text.
 -/
-import MbVerif.Sim.State
+import MbVerif.Proofs.SimBugFree
 import MbVerif.Spec.C18
 
 namespace Mb.C18
@@ -86,6 +86,54 @@ theorem C18_timerBegin_only_from_update {σ : Type} (sd sd' : Side σ) (sq sq' :
       · left
         simp [hb] at h
         exact h.2.symm
+
+/-- **TimerEnd exactly at the stored expiry, once**: firing an internal timer picks a slot whose
+    stored expiry is the target, emits TimerEnd for that machine and side stamped with exactly
+    that expiry, and empties the slot. -/
+theorem C18_timerEnd_at_expiry_once {σ : Type} (st st' : St σ) (target : Int) (e : SimEvent)
+    (h : doInternalTimer st target = .ok (e, st')) :
+    e.time = target ∧ ∃ m, e.event = .timerEnd m ∧ (st.side e.client).schedTimer[m]? = some (some target) ∧
+      (st'.side e.client).schedTimer = (st.side e.client).schedTimer.set m none := by
+  unfold doInternalTimer at h
+  split at h
+  · rename_i id a hf
+    cases h
+    obtain ⟨k, hk, hl⟩ := findSlot_spec _ _ _ _ _ hf
+    have hp := findSlot_sat _ _ _ _ _ hf
+    rw [Nat.zero_add] at hk
+    subst hk
+    have ha : a = target := by simpa using hp
+    subst ha
+    exact ⟨rfl, id, rfl, by simpa [St.side] using hl, by simp [St.side]⟩
+  · split at h
+    · rename_i id a hf
+      cases h
+      obtain ⟨k, hk, hl⟩ := findSlot_spec _ _ _ _ _ hf
+      have hp := findSlot_sat _ _ _ _ _ hf
+      rw [Nat.zero_add] at hk
+      subst hk
+      have ha : a = target := by simpa using hp
+      subst ha
+      exact ⟨rfl, id, rfl, by simpa [St.side] using hl, by simp [St.side]⟩
+    · cases h
+
+/-- **The timer that is due is the one that ends**: when `pick_next` decides for the internal
+    timer branch with offset `i`, a timer with expiry `now + i` exists and is found. -/
+theorem C18_due_timer_found {σ : Type} (st : St σ) (i : Nat) (h : pickDecide st = .ok (.timer i)) :
+    doInternalTimer st (st.now + i) ≠ .error .noInternal :=
+  doInternalTimer_found h
+
+/-- **Cancel clears**: after `Cancel Internal` / `Cancel All` the machine's timer slot is empty, so
+    no TimerEnd can be produced for it until a new UpdateTimer. -/
+theorem C18_cancel_clears {σ : Type} (sd sd' : Side σ) (sq sq' : SimQueue) (now : Int) (cl : Bool) (m : Nat) (t : Timer)
+    (ht : t = .internal ∨ t = .all) (h : applyAction sd sq now cl (.cancel m t) = .ok (sd', sq')) :
+    sd'.schedTimer = sd.schedTimer.set m none := by
+  simp only [applyAction] at h
+  split at h
+  · cases h
+  · split at h
+    · cases h
+    · rcases ht with ht | ht <;> subst ht <;> simp at h <;> rw [← h.1]
 
 /-- non-vacuity of `C18_timerUpdate_spec`: a running timer extended by a longer duration -/
 example : timerUpdate (some 5) 3 10 false = (some 13, true) := by decide
